@@ -1,4 +1,4 @@
 From Coq Require Extraction.
 From Coq Require Import ExtrOcamlBasic.
-From Tickit Require Import LoopDefs LoopSpec LoopSigDefs LoopSigSpec LoopPipeDefs LoopPipeSpec.
-Extraction "mC18.ml" srun fixed_cfg pinned_cfg stop_early_cfg xspec_run xspec_checkb f_run fb_checkb.
+From Tickit Require Import LoopDefs LoopSpec LoopSigDefs LoopSigSpec LoopPipeDefs LoopPipeSpec LoopPipeSnap.
+Extraction "mC18.ml" srun fixed_cfg pinned_cfg stop_early_cfg xspec_run xspec_checkb f_run fb_checkb yspec_run yspec_checkb.
